@@ -12,7 +12,7 @@ RULE = ("random valid bracketed programs (prepare/measure pairs and subcircuit b
         "frequencies count exactly the subcircuit's readouts, and parse_jaqal_output_list on int and str outputs gives the same attribution; "
         "non-trivial = program has a loop around a segment or more than one segment")
 BOUND = "n <= 3 qubits, <= 2 top-level segments each optionally in a loop of count 0..3 (or let k1 / override), depth <= 3"
-BUDGET_S = {"quick": 40, "thorough": 900}
+BUDGET_S = {"quick": 40, "thorough": 400}
 
 
 def cases(tier, rng):
